@@ -101,6 +101,8 @@ struct Table {
     n: usize,
     e: [Entry; MAX_ENTRIES],
     events: Events,
+    /// largest align-1 block obtained (alloc or realloc) in mode COUNT since the last `take_max_alloc`
+    max_buf: usize,
     nviol: usize,
     /// (kind, serial or 0, size)
     viol: [(u8, u32, usize); MAX_VIOL],
@@ -114,6 +116,7 @@ static TABLE: Shared = Shared(UnsafeCell::new(Table {
     n: 0,
     e: [EMPTY; MAX_ENTRIES],
     events: [0; 6],
+    max_buf: 0,
     nviol: 0,
     viol: [(0, 0, 0); MAX_VIOL],
 }));
@@ -205,6 +208,9 @@ impl Tracking {
                 t.n += 1;
                 if m == COUNT && count && !noise {
                     t.events[class_alloc(align)] += 1;
+                }
+                if m == COUNT && !noise && align == 1 {
+                    t.max_buf = t.max_buf.max(size);
                 }
                 (t.n << 8) | F_REG | if noise { F_NOISE } else { 0 }
             });
@@ -359,8 +365,18 @@ pub fn mark_leak_ok(addr: usize) {
     })
 }
 
+/// The event counters without resetting them.
+pub fn peek_events() -> Events {
+    with_table(|t| t.events)
+}
+
 pub fn take_events() -> Events {
     with_table(|t| std::mem::replace(&mut t.events, [0; 6]))
+}
+
+/// Size of the largest byte buffer allocated in the counted region since the last call.
+pub fn take_max_alloc() -> usize {
+    with_table(|t| std::mem::replace(&mut t.max_buf, 0))
 }
 
 pub fn registered() -> usize {
